@@ -16,7 +16,9 @@ import traceback
 import types
 
 
-def run_hy(argv, stdin_text="", cwd=None, timeout=60.0):
+def run_hy(argv, stdin_text="", cwd=None, timeout=60.0, entry="script"):
+    """entry: "script" = what the installed `hy` console script does (sys.exit(hy_main()));
+    "module" = `python -m hy` (hy/__main__.py run as __main__)."""
     rin, win = os.pipe()
     rout, wout = os.pipe()
     rerr, werr = os.pipe()
@@ -42,8 +44,20 @@ def run_hy(argv, stdin_text="", cwd=None, timeout=60.0):
             sys.argv = list(argv)
             import hy.cmdline
             try:
-                hy.cmdline.hy_main()
-                status = 0
+                if entry == "module":
+                    import runpy
+                    runpy.run_module("hy.__main__", run_name="__main__", alter_sys=False)
+                    rv = None
+                else:
+                    rv = hy.cmdline.hy_main()
+                # falling off the end: the console script passes the return value to sys.exit
+                if rv is None:
+                    status = 0
+                elif isinstance(rv, int):
+                    status = rv & 0xFF
+                else:
+                    print(rv, file=sys.stderr)
+                    status = 1
             except SystemExit as e:
                 c = e.code
                 if c is None:
